@@ -12,6 +12,9 @@ Additional requirements for this round: avoid the obvious ideas (weakening a ran
 EXTRA4 = """
 
 Additional requirements for this round: avoid the obvious ideas (weakening a range check, dropping a lock, an under-keyed cache, a missing try/finally). Change 1 must be a PYTHON-SEMANTICS PITFALL introduced by an innocent-looking refactor: for example `x or default` swallowing a valid falsy value (0, 0.0, empty tuple, empty string), truthiness tests instead of `is None`, `is` instead of `==`, a mutable default argument or class attribute, a late-binding closure or lambda in a loop, a generator or iterator consumed twice, reliance on dict or set ordering, shadowing a name, integer division or float rounding, slicing off-by-one, `isinstance` against the wrong base class, bool being an int. It must only misbehave for particular values (typically 0, empty, negative, boundary, or a subclass), not for ordinary ones. Change 2 must be a CROSS-FEATURE INTERACTION: the property's behaviour stays right for the plain, common kind of object but breaks when combined with another part of the library - frozen messages, meta messages and unknown meta messages, message subclasses, tracks and files built in unusual but legal ways, ports wrapping other ports, the parser fed by another component, string/dict/hex forms - whichever are relevant to this property. Both must still keep the existing test suite green."""
+EXTRA5 = """
+
+Additional requirements for this round: avoid the obvious ideas (weakening a range check, dropping a lock, an under-keyed cache, a missing try/finally, truthiness of zero). Change 1 must be a SPECIAL CASE OR FAST PATH KEYED ON A DEFAULT, CONVENTIONAL OR REPEATED VALUE: something that only triggers for a default (velocity 64, tempo 500000, 480 ticks per beat, channel 0, file type 1, charset latin1, time 0), a conventional value (channel 9, middle C, all-notes-off), or for two equal things in a row (the same message twice, the same delta or tempo again, the same status byte, an identical second call) - a 'nothing changed, skip the work' shortcut that is wrong in one situation. Change 2 must only manifest BEYOND SMALL SIZES: it needs at least 6-10 elements or operations in sequence, a payload or count in the hundreds or thousands, three or more participants (tracks, ports, clients, threads), or nesting two levels deep - while every small case (up to 4 or 5 elements) behaves exactly as before. Both must still keep the existing test suite green."""
 for l in open('/verif/properties.jsonl'):
     p = json.loads(l)
     if p['id'] == pid: break
@@ -32,4 +35,4 @@ For EACH change i in (1, 2):
  2. Verify the existing tests still pass with the change: `cd {wt} && /venv/bin/python -m pytest -q -p no:cacheprovider -x --deselect tests/midifiles/test_tracks.py::test_merge_large_midifile tests; echo rc=$?` must give rc=0. (Run from inside {wt} so that `import mido` resolves to the worktree; confirm with `cd {wt} && /venv/bin/python -c "import mido; print(mido.__file__)"`.)
  3. Write a small demonstration `{wt}/demo{{i}}.py` (plain Python, run as `cd {wt} && /venv/bin/python demo{{i}}.py`) that exits 0 on the clean tree and exits non-zero (with a clear message on what was observed vs expected) with the change applied. Verify both.
  4. Write `{wt}/change{{i}}.md`: 3-6 lines - what was changed, which clause of the property it breaks, and what exactly is needed for it to manifest.
-Finish with the tree clean (`git -C {wt} checkout -- .`), leaving only the untracked files change1.diff, demo1.py, change1.md, change2.diff, demo2.py, change2.md in {wt}. If you can only find one valid change, deliver one. Use `timeout 600` on any command that could hang. Report briefly what the two changes are.""" + ({"1": "", "2": EXTRA, "3": EXTRA3, "4": EXTRA4}.get(wave, EXTRA)))
+Finish with the tree clean (`git -C {wt} checkout -- .`), leaving only the untracked files change1.diff, demo1.py, change1.md, change2.diff, demo2.py, change2.md in {wt}. If you can only find one valid change, deliver one. Use `timeout 600` on any command that could hang. Report briefly what the two changes are.""" + ({"1": "", "2": EXTRA, "3": EXTRA3, "4": EXTRA4, "5": EXTRA5}.get(wave, EXTRA)))
